@@ -54,6 +54,8 @@ ATOMS = {
     'NL': (U.NL, lambda x, tower=False: isinstance(x, list) and all(isinstance(i, int) for i in x)),
     'TL': (U.TL, lambda x, tower=False: isinstance(x, list) and all(isinstance(i, int) for i in x)),
     'TU': (U.TU, _inst(int, str)),
+    'NF': (U.NF, lambda x, tower=False: isinstance(x, (float, int) if tower else float)),
+    'TF': (U.TF, lambda x, tower=False: isinstance(x, (float, int) if tower else float)),
     'T': (U.T, lambda x, tower=False: True),
     'TB': (U.TB, _inst(int)),
     'TC': (U.TC, _inst(int, str)),
@@ -196,6 +198,8 @@ def build(t):
         return typing.Annotated[(build(t[1]),) + tuple(VM.vbuild(v) for v in t[2:])]
     if tag == 'g':
         return GENERICS[t[1]][build(t[2])]
+    if tag == 'annm':
+        return typing.Annotated[build(t[1]), 'meta']
     raise ValueError(t)
 
 
@@ -229,6 +233,8 @@ def src(t) -> str:
         return 'typing.Annotated[' + ', '.join([src(t[1])] + [VM.vsrc(v) for v in t[2:]]) + ']'
     if tag == 'g':
         return f'{t[1]}[{src(t[2])}]'
+    if tag == 'annm':
+        return f"typing.Annotated[{src(t[1])}, 'meta']"
     raise ValueError(t)
 
 
@@ -244,7 +250,7 @@ def depth(t) -> int:
         return 1 + depth(t[2])
     if tag == 'c2':
         return 1 + max(depth(t[2]), depth(t[3]))
-    if tag == 'ann':
+    if tag in ('ann', 'annm'):
         return depth(t[1])
     raise ValueError(t)
 
@@ -269,7 +275,7 @@ def has_sampling(t) -> bool:
         return has_sampling(t[2]) or has_sampling(t[3])
     if tag == 'ty':
         return False
-    if tag == 'ann':
+    if tag in ('ann', 'annm'):
         return has_sampling(t[1])
     if tag == 'g':
         return t[1] == 'GL' or has_sampling(t[2])
@@ -285,12 +291,22 @@ def _type_ok(t, x) -> bool:
     if tag == 'a':
         if t[1] in ('any', 'object', 'T'):
             return True
+        if t[1] in ('none', 'NoneType'):
+            return issubclass(x, NoneType)
         c = ATOM_CLASS.get(t[1])
         if c is None:
             raise ValueError(('type[] over', t))
         return issubclass(x, c)
     if tag == 'u':
         return any(_type_ok(m, x) for m in t[2:])
+    # type[] over subscripted containers only arises from hand-rewriting in C18, whose oracle is differential and
+    # uses this predicate merely to pick objects: judge by the origin class.
+    if tag == 'c1':
+        return issubclass(x, C1[t[1]][1])
+    if tag == 'c2':
+        return issubclass(x, C2[t[1]][1])
+    if tag in ('tf', 'tv'):
+        return issubclass(x, tuple)
     raise ValueError(('type[] over', t))
 
 
@@ -341,6 +357,8 @@ def _sat(t, x, full: bool, tower: bool) -> bool:
         return isinstance(x, type) and _type_ok(t[2], x)
     if tag == 'ann':
         return _sat(t[1], x, full, tower) and all(VM.vsat(v, x) for v in t[2:])
+    if tag == 'annm':
+        return _sat(t[1], x, full, tower)
     if tag == 'g':
         if not isinstance(x, GENERICS[t[1]]):
             return False
